@@ -62,6 +62,8 @@ type c14x struct {
 	v   any       // the attribute value the call sites pass: 1, or an error value that carries a stack
 	u0  c14site   // position of the issuing statement
 	cal []c14site // calibration: the frames from the closure upwards
+
+	flagsLate *slog.Flags // SetSkipLate: the flags to go back to once the handler and the bridge exist
 }
 
 // frameAt: the logical frame `skip` levels above the caller of frameAt (0 = the caller itself)
@@ -276,8 +278,16 @@ func c14Cell(res *c14Result, snap *slog.VerifRegistry, cal [][]c14site, kind, fo
 	e.SetWriter(pool[1]).SetErrorWriter(pool[1]).SetLevel(slog.AlwaysLevel)
 	c14SetFormat(e, format)
 	if kind != "default" {
+		if api == "SetSkipLate" { // ... and while caller information is still switched off: it is switched on afterwards
+			f0 := slog.GetFlags()
+			slog.RemoveFlags(slog.Lcaller | slog.Llineno)
+			x.flagsLate = &f0
+		}
+		x.ll = slog.NewLogLogger(x.l, c14BridgeLevel) // (first: making a handler with options changes the flags)
 		x.sl = logslog.New(slog.NewSlogHandler(x.l, &slog.HandlerOptions{NoColor: format != "color", JSON: format == "json", Level: slog.AlwaysLevel}))
-		x.ll = slog.NewLogLogger(x.l, c14BridgeLevel)
+	}
+	if x.flagsLate != nil {
+		slog.SetFlags(*x.flagsLate)
 	}
 	if api == "SetSkipLate" {
 		x.l.SetSkip(skip)
